@@ -66,9 +66,37 @@ def swap_tokens(tree, pairs):
     for a, b in pairs:
         m[a] = b
         m[b] = a
-    # whole identifiers only: `max` is swapped, `max_by` is not (Iterator::max_by keeps the LAST maximum while min_by keeps the
-    # FIRST minimum: they are not mirror images with respect to ties)
-    rx = re.compile(r'(?<![A-Za-z0-9_])(' + '|'.join(sorted((re.escape(k) for k in m), key=len, reverse=True)) + r')(?![A-Za-z0-9_])')
+    # identifiers are swapped segment-wise (`search_highest` <-> `search_lowest`, `max_index` <-> `min_index`), except
+    #  * `max_by` / `min_by` (and *_by_key): Iterator::max_by keeps the LAST maximum while min_by keeps the FIRST minimum, they are not
+    #    mirror images with respect to ties;
+    #  * identifiers naming both sides at once (`highest_lowest`, the module): they denote the pair, not one side.
+    ident = re.compile(r'[A-Za-z_][A-Za-z0-9_]*')
+    multi = sorted((k for k in m if '_' in k or ':' in k), key=len, reverse=True)
+
+    def swap_ident(mm):
+        w = mm.group(0)
+        if w in m:
+            return m[w]
+        if re.search(r'(^|_)(max|min)_by(_|$)', w):
+            return w
+        segs = w.split('_')
+        for a, b in pairs:
+            if a in segs and b in segs:
+                return w
+        return '_'.join(m.get(sg, sg) for sg in segs)
+
+    class _Rx:
+        @staticmethod
+        def sub(fn_unused, text):
+            # multi-part keys (containing '_' or ':') first, as whole tokens; then identifier segments
+            for k in multi:
+                if k in text:
+                    text = re.sub(r'(?<![A-Za-z0-9_])' + re.escape(k) + r'(?![A-Za-z0-9_])', '\x00' + str(multi.index(k)) + '\x00', text)
+            text = ident.sub(swap_ident, text)
+            for i, k in enumerate(multi):
+                text = text.replace('\x00%d\x00' % i, m[k])
+            return text
+    rx = _Rx()
 
     def go(x):
         if isinstance(x, list):
@@ -104,6 +132,8 @@ def first_diff(a, b, path=''):
 
 
 ORDER = [('Ge:f', 'Le:f'), ('Gt:f', 'Lt:f'), ('max', 'min')]
+# side words in the names of private helpers and fields of mirror pairs (`search_highest` <-> `search_lowest`)
+SIDE_WORDS = [('highest', 'lowest'), ('upper', 'lower'), ('above', 'under'), ('high', 'low'), ('maximum', 'minimum')]
 
 # (type A, type B, extra token swaps, sentence of the property that makes them mirrors)
 MIRRORS = [
@@ -134,7 +164,7 @@ def s04_mirror_siblings(ctx, which=None):
         # all functions whose def path mentions the type (impl methods, inherent fns), paired by mapped path
         fa = {d: h for d, h in f.hir.items() if re.search(r'(?<![A-Za-z0-9])%s(?![A-Za-z0-9])' % re.escape(A), d)}
         fb = {d: h for d, h in f.hir.items() if re.search(r'(?<![A-Za-z0-9])%s(?![A-Za-z0-9])' % re.escape(B), d)}
-        pairs = [(sa, sb)] + extra
+        pairs = [(sa, sb)] + extra + [sp for sp in SIDE_WORDS + [('max', 'min')] if sp not in extra]
         for d, h in sorted(fa.items()):
             fname = d.rsplit('::', 1)[-1]
             if fname in ('fmt', 'clone', 'serialize', 'deserialize', 'default') or '::tests::' in d or '_serde' in d and 'Deserialize' in d:
